@@ -419,6 +419,18 @@ func (rp *recvProp) run(c Case, component bool, smid string, n0 int, rng *rand.R
 				break
 			}
 		}
+		if c.Variant[0] == "client-sent" {
+			// the application has sent three stanzas on the stream-managed session before the history starts: an <a/>
+			// of the server that acknowledges fewer makes the client transmit the others again and ask once more -
+			// from the routing goroutine, next to the receive loop, which goes on answering and routing
+			for k := 1; k <= 3; k++ {
+				client.SendRaw(fmt.Sprintf("<message id='out%d' to='x@y'><body>o</body></message>", k))
+			}
+			st.takeWrites()
+			st.mu.Lock()
+			st.nwrite = 0
+			st.mu.Unlock()
+		}
 		go func() {
 			defer func() {
 				if r := recover(); r != nil {
@@ -675,6 +687,18 @@ func (rp recvProp) Generate(rng *rand.Rand, tier string, st *Stats) []Case {
 				mk("client-replies", smid, 0, seq(ks))
 			}
 		}
+	}
+	// an acknowledgement that covers only part of what the client has sent (three stanzas sent before the history): the
+	// retransmission and the new request are written from a routing goroutine while the loop goes on: the <r/> that
+	// follows is answered, the stanzas after it are routed
+	if rp.id == "C05" || rp.id == "C12" || rp.id == "C09" {
+		for _, h := range []string{"0", "1", "2", "3", "7"} {
+			for _, tail := range [][]string{{"r", "msg", "r"}, {"msg", "r", "pres", "iq", "r"}, {"r"}} {
+				ops := append([][]string{recvOp("a", h, false)}, seq(tail)...)
+				mk("client-sent", "sm1", 0, ops)
+			}
+		}
+		mk("client-sent", "sm1", 0, append(append([][]string{recvOp("a", "1", false), recvOp("a", "1", false)}, seq([]string{"r", "msg"})...), recvOp("a", "2", false), recvOp("r", "-", false)))
 	}
 	// corpus (witnesses of F-09, F-05, F-12)
 	mk("client", "sm1", 0, seq([]string{"a", "r"}))
